@@ -633,6 +633,16 @@ func (s *seatRun) onNext(pre, post []seatView, prevD int, err error) {
 		s.watchSeat = -1
 		return
 	}
+	if s.props["C18"] {
+		// "held out of play until they sit in": a position never lands on a seat whose player has only joined
+		for name, a := range map[string]*sm.Seat{"dealer": m.Dealer(), "small blind": m.SmallBlind(), "big blind": m.BigBlind()} {
+			if a != nil && a.ID >= 0 && a.ID < len(post) && post[a.ID].occ && post[a.ID].res {
+				s.fail("C18/waiting-player-in-play", "position="+strings.ReplaceAll(name, " ", "-"), fmt.Sprintf("after Next() the %s is seat %d, whose player has joined but never sat in (seats: %v)", name, a.ID, post))
+				return
+			}
+		}
+		s.rep.Inc("positions_checked_for_reserved_seats")
+	}
 	if s.props["C08"] || s.props["C17"] {
 		s.rep.Inc("oracle_evaluations")
 		s.rep.Inc("successful_next")
